@@ -32,7 +32,7 @@ from vlib import Check, run_tlc, tlc_must_pass
 
 PROP = "C13"
 BATCH = 50
-QUOTA = {"search": 420, "special": 300, "invoc": 100, "virt": 260, "pairs": 200, "cycles": 120, "data": 60, "laws": 48,
+QUOTA = {"search": 420, "special": 300, "invoc": 100, "virt": 420, "pairs": 200, "cycles": 120, "data": 60, "laws": 48,
          "codefile": 700}
 ACTIONS = ("BindCodeFile", "StartMain", "ForceStmt", "FinishLoad", "DemandStmt", "FinishManifest", "Import",
            "Demand", "FollowLazy", "DeliverForced", "DeliverManifest", "ManifestCycle")
